@@ -15,7 +15,7 @@ import asyncio
 
 
 class FakeFuture:
-    __slots__ = ("id", "fn", "args", "kwargs", "done", "value", "kind")
+    __slots__ = ("id", "fn", "args", "kwargs", "done", "value", "kind", "error")
 
     def __init__(self, id, kind, fn=None, args=(), kwargs=None, done=False, value=None):
         self.id = id
@@ -25,6 +25,7 @@ class FakeFuture:
         self.kwargs = kwargs or {}
         self.done = done
         self.value = value
+        self.error = None           # exception raised by the task (or inherited from an argument)
 
     def __repr__(self):
         return "<F%d %s>" % (self.id, "done" if self.done else "pending")
@@ -86,7 +87,7 @@ class FakeClient:
     def gather(self, obj, asynchronous=True, **kw):
         res = asyncio.get_event_loop().create_future()
         if all(f.done for f in nested_futures(obj)):
-            res.set_result(unpack(obj))
+            self._resolve(obj, res)
         else:
             self.waiters.append((obj, res))
         return res
@@ -107,15 +108,30 @@ class FakeClient:
         f = self.futures[k]
         if f.done or not all(d.done for d in nested_futures((f.args, f.kwargs))):
             return False
-        f.value = f.fn(*unpack(f.args), **unpack(f.kwargs))
+        bad = [d.error for d in nested_futures((f.args, f.kwargs)) if d.error is not None]
+        if bad:
+            f.error = bad[0]        # a task whose argument failed fails with the same exception
+        else:
+            try:
+                f.value = f.fn(*unpack(f.args), **unpack(f.kwargs))
+            except Exception as e:   # the task raised: the future is finished, in error
+                f.error = e
         f.done = True
         self.log.append(('done', k))
         still = []
         for obj, res in self.waiters:
             if all(d.done for d in nested_futures(obj)):
                 if not res.done():
-                    res.set_result(unpack(obj))
+                    self._resolve(obj, res)
             else:
                 still.append((obj, res))
         self.waiters = still
         return True
+
+    @staticmethod
+    def _resolve(obj, res):
+        bad = [d.error for d in nested_futures(obj) if d.error is not None]
+        if bad:
+            res.set_exception(bad[0])
+        else:
+            res.set_result(unpack(obj))
